@@ -24,6 +24,10 @@ ASSUMPTIONS = [
     "an element that is itself a StopIter instance ends a loop early and cuts adapter chains (sentinel_cuts): documented behaviour of the protocol",
 ]
 
+COUNTER = ('#[derive(Iter)] class Counter { #[constructor] fn new(self, max) { self.max = max; self.pos = 0; } fn iter(self) { self.pos = 0; return self; }\n'
+           ' fn next(self) { if self.pos == self.max { return StopIter.new(); } self.pos += 1; return self.pos; } }\n')
+BAG = '#[derive(Iter)] class Bag { #[constructor] fn new(self, items) { self.items = items; } fn iter(self) { return self.items.iter(); } }\n'
+
 SCENARIOS = [
     ("every-iterable-kind",
      'for x in [3, 1, 2] { print(x); } for x in (7, 8) { print(x); } for x in 0..3 { print(x); } for x in 3..0 { print(x); } for x in "aé€😀" { print(x); }\n'
@@ -74,6 +78,25 @@ SCENARIOS = [
      'var m = 0; for x in 9223372036854775807..-9223372036854775808 { m = m + 1; if m == 3 { break; } } print(m);\n'
      'for x in 9007199254740990..9007199254740992 { print(x); } for x in -9007199254740990..-9007199254740992 { print(x); }',
      ["3", "3", "9007199254740990", "9007199254740991", "-9007199254740990", "-9007199254740991"]),
+    ("restartable-user-iterable",
+     COUNTER + 'var c = Counter.new(6); for x in c { if x == 3 { break; } } print(c.collect());\n'
+     'for x in c { if x == 3 { break; } } print(c.map(|x| x * 10).collect());\nfor x in c { if x == 3 { break; } } print(c.filter(|x| x > 0).collect());\n'
+     'for x in c { if x == 4 { break; } } print(c.filter(|x| x % 2 == 0).map(|x| x * x).collect());\nprint(c.map(|x| x + 1).filter(|x| x > 3).collect());\n'
+     'for x in c { if x == 5 { break; } } print(c.reduce(|a, x| a + x, 0)); var n = 0; for x in c { for y in c { n = n + 1; } } print(n);',
+     ["[1, 2, 3, 4, 5, 6]", "[10, 20, 30, 40, 50, 60]", "[1, 2, 3, 4, 5, 6]", "[4, 16, 36]", "[4, 5, 6, 7]", "21", "6"]),
+    ("container-user-iterable",
+     BAG + 'var b = Bag.new([1, 2, 3, 4, 5]); var plain = []; for x in b { plain.push(x); } print(plain); print(b.reduce(|a, x| a + x, 0));\n'
+     'print(b.map(|x| x * 10).collect()); print(b.filter(|x| x > 2).collect()); print(b.filter(|x| x > 2).map(|x| x + 1).collect()); print(b.collect());\n'
+     'for x in b { for y in b { if x == y { print(x); } } }',
+     ["[1, 2, 3, 4, 5]", "15", "[10, 20, 30, 40, 50]", "[3, 4, 5]", "[4, 5, 6]", "[1, 2, 3, 4, 5]", "1", "2", "3", "4", "5"]),
+    ("range-outlives-the-range-cache",
+     'fn churn(n) { var junk = nil; var c = 0; while c < n { junk = [c, c]; c += 1; } }\n'
+     'var out = []; for i in 0..3 { out.push(i); if out.len() >= 12 { break; } var others = [10..11, 10..12, 10..13, 10..14, 10..15, 10..16, 10..17, 10..18, 10..19];\n'
+     ' churn(3000); var later = [41..90, 42..90, 43..90, 44..90, 45..90, 46..90, 47..90, 48..90, 49..90]; } print(out);\n'
+     'var seen = (3..0).iter().map(|i| { var others = [20..21, 20..22, 20..23, 20..24, 20..25, 20..26, 20..27, 20..28, 20..29]; churn(3000);\n'
+     ' var later = [71..-90, 72..-90, 73..-90, 74..-90, 75..-90, 76..-90, 77..-90, 78..-90, 79..-90]; return i; });\n'
+     'var got = []; for v in seen { got.push(v); if got.len() >= 12 { break; } } print(got);',
+     ["[0, 1, 2]", "[3, 2, 1]"]),
     ("iterating-a-non-iterable-is-an-error",
      'try { for x in 5 { print("no"); } } catch e { print(type(e) == AttributeError); }\ntry { for x in nil { print("no"); } } catch e { print(type(e) == AttributeError); }',
      ["true", "true"]),
@@ -94,7 +117,7 @@ def correspondence(ctx, model_ok=True):
     n_req = 1500 if ctx.thorough else 300
     for i in range(n_req):
         r = rng.fork("q%d" % i)
-        k = r.below(3)
+        k = r.below(4)
         if k == 0:
             b = r.below(13) - 6
             e = r.below(13) - 6
@@ -121,7 +144,19 @@ def correspondence(ctx, model_ok=True):
         else:
             xs = [r.below(20) - 5 for _ in range(r.below(7))]
             stages = []
+            head = "chain %s" % (",".join(str(x) for x in xs) if xs else "-")
+            pre = ""
             expr = "[%s].iter()" % ", ".join("(%d)" % x for x in xs)
+            if k == 3 and r.chance(1, 2):
+                mx = r.below(8)
+                pos = r.below(mx + 1)
+                head = "obj counter %d %d" % (mx, pos)
+                pre = COUNTER + "var o = Counter.new(%d);\n" % mx + ("for x in o { if x == %d { break; } }\n" % pos if pos else "")
+                expr = "o"
+            elif k == 3:
+                head = "obj bag %s" % (",".join(str(x) for x in xs) if xs else "-")
+                pre = BAG + "var o = Bag.new([%s]);\n" % ", ".join("(%d)" % x for x in xs)
+                expr = "o"
             for _ in range(r.below(4)):
                 s = r.below(4)
                 kk = r.below(7) - 2
@@ -135,12 +170,12 @@ def correspondence(ctx, model_ok=True):
                     stages.append("filter:gt:%d" % kk); expr += ".filter(|v| v > (%d))" % kk
             if r.chance(1, 2):
                 fin = "collect"; expr += ".collect()"
-                src = "for x in %s { print(x); }\n" % expr
+                src = pre + "for x in %s { print(x); }\n" % expr
             else:
                 init = r.below(10)
                 fin = "reduce:add:%d" % init; expr += ".reduce(|a, b| a + b, %d)" % init
-                src = "print(%s);\n" % expr
-            reqs.append("chain %s %s %s" % (",".join(str(x) for x in xs) if xs else "-", " ".join(stages), fin))
+                src = pre + "print(%s);\n" % expr
+            reqs.append("%s %s %s" % (head, " ".join(stages), fin))
             reqs[-1] = " ".join(reqs[-1].split())
         progs_src.append(src)
     real, _ = progs.run_programs(ctx.runner, [("q%d" % i, s, {}) for i, s in enumerate(progs_src)], {"gc": "default"}, tag="q")
@@ -151,7 +186,7 @@ def correspondence(ctx, model_ok=True):
         except Exception as e:
             broken.append("model driver iter: %s" % e)
     compared = 0
-    kinds = {"range": 0, "vecops": 0, "chain": 0}
+    kinds = {"range": 0, "vecops": 0, "chain": 0, "obj": 0}
     if ans is not None:
         for req, a, r, src in zip(reqs, ans, real, progs_src):
             c = progs.canon_step(r)
@@ -160,7 +195,7 @@ def correspondence(ctx, model_ok=True):
             kinds[req.split()[0]] += 1
             compared += 1
             exp = a
-            if req.startswith("chain") and req.endswith("collect") and a == "-":
+            if req.split()[0] in ("chain", "obj") and req.endswith("collect") and a == "-":
                 exp = "-"
             if c[0] != "ok" or got != exp:
                 failures.append({"what": "iterator model and implementation disagree", "request": req, "model": a, "real": got, "status": c[0], "program": src,
@@ -181,7 +216,7 @@ def correspondence(ctx, model_ok=True):
         "evaluations": compared + 2 * len(scen) + sd["compared"],
         "distinct_nontrivial": len(set(reqs)),
         "rule": "generated requests to the iterator model (range bounds in [-6,6] incl. empty and descending; vectors with interleaved next/push/pop/set; "
-                "adapter chains of depth 0-3 ending in collect or reduce) executed on the implementation; distinct = distinct request; plus %d "
+                "adapter chains of depth 0-3 ending in collect or reduce, over a vector iterator or applied to a user object deriving Iter whose iter() rewinds it / answers a separate iterator) executed on the implementation; distinct = distinct request; plus %d "
                 "constructed-oracle scenarios x 2 GC modes" % len(scen),
         "samples": [reqs[0], reqs[1], reqs[2]],
         "requests_by_kind": kinds,
